@@ -554,6 +554,9 @@ func Run(t *testing.T, cfg Config, body func()) (res Result) {
 				panic(p)
 			}
 		}
+		// goroutines of an aborted run (budget, deadlock) may still be parked and have read the global without a happens-before
+		// edge to this write; the race detector reports it in the -race binary and the driver recognises the pair (this function
+		// against a verifhook frame) as the simulator's own
 		verifhook.Sim = nil
 		res.Steps, res.Switches, res.Hash, res.Anon, res.Ticks = s.steps, s.sw, s.hash, s.anon, s.ticks
 		res.Trace = s.trace[:s.ntrace]
